@@ -2,7 +2,7 @@
    Only statements, each closed by `exact <lemma>` and followed by Print Assumptions.
    (harness/core.py reads the Print Assumptions output in this order.) *)
 From Coq Require Import ZArith List Bool String Ascii Permutation.
-From Verif Require Import Lib.Dyadic Model.C10_Attr Model.C10_File Proofs.C10_Attr Proofs.C10_File Proofs.C10_FileRT Proofs.C10_FileTop Model.C10_Session Proofs.C10_Session.
+From Verif Require Import Lib.Dyadic Model.C10_Attr Model.C10_File Proofs.C10_Attr Proofs.C10_File Proofs.C10_FileRT Proofs.C10_FileTop Model.C10_Session Proofs.C10_Session Model.C10_Graph Proofs.C10_Graph.
 Import ListNotations.
 Open Scope Z_scope.
 
@@ -127,6 +127,22 @@ Theorem c10_meta_nan_file_refuted :
   wf w_meta = true /\ roundtrips all_off w_meta 1 = true /\ roundtrips (set_q 2 all_off) w_meta 1 = false.
 Proof. exact meta_nan_refuted. Qed.
 Print Assumptions c10_meta_nan_file_refuted.
+
+(* ---------------------------------------------------------------- (d) the full object graph (Model/C10_Graph.v) *)
+
+(* naming embedded attribute objects by the bare attribute name (the code before fixes/C10-5.diff) confuses a shared
+   embedded object with another field's embedded object of the same attribute; group paths (specification) do not *)
+Theorem c10_bare_names_refuted :
+  roundtrips2 false w_shared 1 = true /\ roundtrips2 true w_shared 1 = false.
+Proof. exact bare_names_refuted. Qed.
+Print Assumptions c10_bare_names_refuted.
+
+(* shared embedded object with an embedded object of its own + references to a field omitted by the level: round trip *)
+Theorem graph_rich_example :
+  roundtrips2 false w_rich 3 = true /\ roundtrips2 false w_rich 1 = true /\
+  map fst (t_fields (expected 3 w_rich)) = [["a"%string]; ["b"%string]].
+Proof. exact rich_roundtrips. Qed.
+Print Assumptions graph_rich_example.
 
 (* ---------------------------------------------------------------- (c) history independence *)
 
